@@ -23,6 +23,9 @@ def parseOp (op : String) : Option Op :=
     let v ← v.toNat?
     pure (.set a p (UInt8.ofNat v))
   | ["recycle", a] => some (.recycle a)
+  | ["mapset", a, key, k, v] => do
+    let v ← v.toInt?
+    pure (.mapset a key k v)
   | _ => none
 
 def histStep (st : Store) (op : String) : Except HErr Store :=
@@ -30,8 +33,16 @@ def histStep (st : Store) (op : String) : Except HErr Store :=
   | some o => applyOp st o
   | none => .error .badOp
 
+def insStr {β} (p : String × β) : List (String × β) → List (String × β)
+  | [] => [p]
+  | x :: xs => if p.1 ≤ x.1 then p :: x :: xs else x :: insStr p xs
+
+def showAnn (a : Ann) : String :=
+  ";".intercalate ((a.foldr insStr []).map fun (key, m) =>
+    key ++ "{" ++ ",".intercalate ((m.foldr insStr []).map fun (k, v) => s!"{k}:{v}") ++ "}")
+
 def showObj (p : String × Obj) : String :=
-  s!"{p.1}={hex p.2.seq}/{match p.2.qual with | some q => hex q | none => "none"}"
+  s!"{p.1}={hex p.2.seq}/{match p.2.qual with | some q => hex q | none => "none"}/{showAnn p.2.ann}"
 
 def insByName (p : String × Obj) : Store → Store
   | [] => [p]
